@@ -181,6 +181,46 @@ mod sel {
         ran(&format!("hx_select_e2e::sel::lossy::{x}"))
     }
 
+    // Nested generic arguments and non-path types: the label strips the module
+    // path in front of the OUTER type only; inner paths stay qualified, and a
+    // type that is not a path (a reference) keeps its full name.
+    pub trait NestTag {
+        const TAG: &'static str;
+    }
+    impl NestTag for Option<u8> {
+        const TAG: &'static str = "Option<u8>";
+    }
+    impl NestTag for Vec<Option<u8>> {
+        const TAG: &'static str = "Vec<core::option::Option<u8>>";
+    }
+    impl NestTag for Vec<u8> {
+        const TAG: &'static str = "Vec<u8>";
+    }
+    impl NestTag for std::collections::HashMap<u64, Vec<u8>> {
+        const TAG: &'static str = "HashMap<u64, alloc::vec::Vec<u8>>";
+    }
+    impl NestTag for String {
+        const TAG: &'static str = "String";
+    }
+    impl NestTag for &'static String {
+        const TAG: &'static str = "&alloc::string::String";
+    }
+
+    #[divan::bench(types = [Option<u8>, Vec<Option<u8>>, Vec<u8>, std::collections::HashMap<u64, Vec<u8>>])]
+    fn nest<T: NestTag + 'static>() {
+        ran(&format!("hx_select_e2e::sel::nest::{}", T::TAG))
+    }
+
+    #[divan::bench(types = [Vec<Option<u8>>, Option<u8>], consts = [1, 2])]
+    fn nestc<T: NestTag + 'static, const N: usize>() {
+        ran(&format!("hx_select_e2e::sel::nestc::{}::{N}", T::TAG))
+    }
+
+    #[divan::bench(types = [String, &'static String])]
+    fn refs<T: NestTag + 'static>() {
+        ran(&format!("hx_select_e2e::sel::refs::{}", T::TAG))
+    }
+
     pub mod alpha {
         use super::ran;
 
